@@ -803,7 +803,7 @@ func (p *Program) globalWrittenOutsideInit(g *ssa.Global) string {
 					for _, u := range *v.Referrers() {
 						switch t := u.(type) {
 						case *ssa.Lookup, *ssa.Range, *ssa.Next, *ssa.Extract, *ssa.Index, *ssa.DebugRef:
-							if uv, ok := u.(ssa.Value); ok {
+							if uv, ok := u.(ssa.Value); ok && mayAliasMemory(uv.Type()) {
 								if why := check(uv, depth+1); why != "" {
 									return why
 								}
@@ -871,4 +871,27 @@ func (p *Program) inModule(fn *ssa.Function) bool {
 		}
 	}
 	return false
+}
+
+// mayAliasMemory: a value of this type can give write access to memory shared with where it was read from.
+func mayAliasMemory(t types.Type) bool {
+	switch u := types.Unalias(t).Underlying().(type) {
+	case *types.Basic:
+		return false
+	case *types.Tuple:
+		for i := 0; i < u.Len(); i++ {
+			if mayAliasMemory(u.At(i).Type()) {
+				return true
+			}
+		}
+		return false
+	case *types.Struct:
+		for i := 0; i < u.NumFields(); i++ {
+			if mayAliasMemory(u.Field(i).Type()) {
+				return true
+			}
+		}
+		return false
+	}
+	return true
 }
